@@ -64,7 +64,8 @@ class Concretiser:
         out = {}
         t = h["type"]
         if t == "nonstr":
-            out["type"] = 7
+            # not a string: a number, an (unhashable) array or object, null, a boolean
+            out["type"] = [7, ["direct-tcp-v1"], {}, None, True, 2.5, {"type": "direct-tcp-v1"}, []][(self.variant * 3 + self.n) % 8]
         elif t != "missing":
             out["type"] = t
         ids = {}
